@@ -10,4 +10,5 @@ import LoraVerif.Props.TieA.HandleMacsLoop
 tie-A equalities between the hand model's constants and the items regenerated from the current
 source (`Props/TieA/C08.lean`).  Kept separate from `Props/C08.lean` so that properties which only
 import C08's lemmas do not inherit its generated units.
+import LoraVerif.Props.TieA.PlanMask
 -/
